@@ -5,7 +5,7 @@
 (* every invariant on, and prints one REPLAY line (input + the spec's      *)
 (* outcome) per behaviour for the conformance harness.                     *)
 (***************************************************************************)
-EXTENDS Cgt, CgtConst, TLC, Json
+EXTENDS Cgt, CgtConst, CgtGen, TLC, Json
 
 CONSTANTS
   Timings,     \* admissible split-timing readings explored
@@ -20,18 +20,8 @@ CONSTANTS
   MaxCells,    \* at most this many non-empty buy/sell cells per security (0 = unlimited)
   Emit         \* TRUE: print a REPLAY line for every terminated behaviour
 
-\* deterministic, pairwise distinct prices and fees per day slot, chosen so that
-\* disposals are gains, losses and exact zeros and so that a wrong lot shows
-BP == <<10, 12, 15, 9, 14, 11, 13, 16>>
-BF == <<1, 0, 2, 1, 0, 3, 1, 2>>
-SP == <<20, 8, 17, 13, 19, 7, 21, 12>>
-SF == <<0, 1, 2, 0, 1, 0, 2, 1>>
 \* second security gets shifted prices
 SecShift(s) == CHOOSE i \in 1..Len(SecSeq) : SecSeq[i] = s
-
-SplitTable == << <<2, 1>>, <<3, 1>>, <<1, 2>>, <<3, 2>> >>
-\* [ac, cr, crf]
-EventTable == << <<0, 1, 0>>, <<3, 0, 0>>, <<0, 3, 1>>, <<2, 2, 0>>, <<0, 40, 0>> >>
 
 BaseCells == [bq : BuyQs, sq : SellQs]
 NonEmpty(g) == Cardinality({d \in 1..MC_N : g[d].bq # 0}) + Cardinality({d \in 1..MC_N : g[d].sq # 0})
@@ -45,20 +35,7 @@ Placements(kinds, k) ==
                  x \in 1..MC_N, y \in 1..MC_N, r \in kinds, r2 \in kinds}
   IN {none} \cup (IF k >= 1 THEN one ELSE {}) \cup (IF k >= 2 THEN two ELSE {})
 
-MkCell(s, d, g, sp, ev) ==
-  LET sh == SecShift(s) - 1
-      bq == g[d].bq
-      sq == g[d].sq
-  IN [bq |-> Norm(bq, QDen),
-      bp |-> IF bq = 0 THEN Zero ELSE R(BP[d] + 3 * sh),
-      bf |-> IF bq = 0 THEN Zero ELSE R(BF[d] + sh),
-      sq |-> Norm(sq, QDen),
-      sp |-> IF sq = 0 THEN Zero ELSE R(SP[d] + 2 * sh),
-      sf |-> IF sq = 0 THEN Zero ELSE R(SF[d]),
-      split |-> IF sp[d] = 0 THEN One ELSE Norm(SplitTable[sp[d]][1], SplitTable[sp[d]][2]),
-      ac |-> IF ev[d] = 0 THEN Zero ELSE R(EventTable[ev[d]][1]),
-      cr |-> IF ev[d] = 0 THEN Zero ELSE R(EventTable[ev[d]][2]),
-      crf |-> IF ev[d] = 0 THEN Zero ELSE R(EventTable[ev[d]][3])]
+MkCell(s, d, g, sp, ev) == GenCellOf(SecShift(s) - 1, d, g[d].bq, g[d].sq, QDen, sp[d], ev[d])
 
 MkSec(s, g, sp, ev) == [d \in 1..MC_N |-> MkCell(s, d, g, sp, ev)]
 
